@@ -1,7 +1,8 @@
 PROP = dict(
     module="M3d.Props.C17",
     corr=dict(quick=300, thorough=4000),
-    gen=["Binomial"],
+    gen=["Binomial", "Kernels"],
+    tie_modules=["M3d.Lemmas.KernelsTieNumeric"],
     corr_theorems=(
         "exact mode (q): the driver prints the SPECIFICATION wherever M3d.C17 proves the faithful model equal to it — "
         "bezier_eval_eq_decasteljau (bez eval -> de Casteljau), bezier_split_eval (bez spliteval), segment_curve_eval (seg eval -> arclength walk), "
@@ -18,6 +19,10 @@ PROP = dict(
         "for Line/Grid2D/Grid3D/RecursiveLineSearch with even and odd stops and 0-3 recursions, plus spikes sitting on/next to the first or last stop (clamped refinement window), GSS, bisection; polynomials lead*prod(x-r_i)*prod((x-h)^2+k) of degree 1-8 with known dyadic roots and BOTH signs of the leading coefficient (expected roots computed by the driver); Bezier.Length vs chord sum of Eval and vs Split halves (closed, repeated, collinear, tiny, point polygons); distinct = distinct operation lines"
     ),
     trusted=[
+        "regenerated, not hand-written: lean/M3d/Gen/Kernels.lean (Go->Lean translator harness/hlib/go2lean, run on the current "
+        "source on every check) contains numerical/matrix2.go, matrix3.go, matrix4.go and vecs.go; M3d.KernelsTie.Numeric.* re-prove "
+        "against it that Det, Inverse (through InvertInPlaceDet and the in-place Scale loop), Mul, MulColumn, MulColumnInv, "
+        "Transpose, Add of Matrix2/3 and Det, Mul, Transpose of Matrix4 are the model functions of the reconstruction theorems",
         "modelled, not verified: sort.SearchFloat64s as 'least index with a[i] >= x' (true on the sorted cumulative offsets); math.Mod as the exact x - trunc(x/y)*y; math.Sqrt / int() / trunc as function parameters constrained by their defining property in the theorems",
         "Coord/Vec Scale/Add/Sub are component-wise, so Bezier kernels are modelled per coordinate (both coordinates are compared by the correspondence)",
         "Polynomial.Mul is modelled as the sum of shifted rows (equal to the Go double loop over any commutative ring; compared in exact mode only)",
